@@ -84,6 +84,12 @@ theorem unlocked_ids_collide :
     ∃ c, Lts.Reach Lts.unlockedProg (Lts.Cfg.init 0) c ∧ (c.thr 0).res = some 1 ∧ (c.thr 1).res = some 1 :=
   ⟨Lts.runSched Lts.unlockedProg (Lts.Cfg.init 0) [0, 1, 0, 1, 0, 1], Lts.runSched_reach _ _ _, by decide, by decide⟩
 
+/-- ... and so can they when only the increment is locked and the value is read for `return` after the release: the second
+    request passes the locked block between the first one's release and its read -/
+theorem late_read_ids_collide :
+    ∃ c, Lts.Reach Lts.lateReadProg (Lts.Cfg.init 0) c ∧ (c.thr 0).res = some 2 ∧ (c.thr 1).res = some 2 :=
+  ⟨Lts.runSched Lts.lateReadProg (Lts.Cfg.init 0) [0, 0, 0, 0, 1, 1, 1, 1, 0, 1], Lts.runSched_reach _ _ _, by decide, by decide⟩
+
 /-! ### provider: the messages about one transaction -/
 
 /-- Exact characterisation. The request received after the events `pre` owns the id `counter + 1`; after any further
